@@ -4,3 +4,8 @@ import Gostatix.Model.Bloom
 import Gostatix.Props.C01
 import Gostatix.Props.C11
 import Gostatix.Props.C18
+import Gostatix.Props.C03
+import Gostatix.Props.C06
+import Gostatix.Props.C12
+import Gostatix.Props.C17
+import Gostatix.Props.C04
